@@ -5,6 +5,15 @@ import CoxeterVerif.Lemmas.FamiliesCorners423a
 import CoxeterVerif.Lemmas.FamiliesCorners423b
 import CoxeterVerif.Lemmas.FamiliesCorners423c
 import CoxeterVerif.Lemmas.FamiliesCorners423d
+import CoxeterVerif.Lemmas.FamiliesCorners523a
+import CoxeterVerif.Lemmas.FamiliesCorners523b
+import CoxeterVerif.Lemmas.FamiliesCorners523c
+import CoxeterVerif.Lemmas.FamiliesCorners523d
+import CoxeterVerif.Lemmas.FamiliesCert
+import CoxeterVerif.Lemmas.FamiliesGap
+import CoxeterVerif.Lemmas.FamiliesGapCheck
+import CoxeterVerif.Lemmas.FamiliesGapExample
+import CoxeterVerif.Lemmas.FamiliesSolidOther
 /-!
   # C17 — parametric shape families generate exactly the documented shapes
 
@@ -303,6 +312,70 @@ example : Gen.tt.getShape Gen.fam323 (1 / 2 : ℝ) =
 example : Gen.tt.getShape Gen.fam323 (-1 : ℝ) = .error "ValueError" :=
   (domain_iff_tt (-1)).1.mpr (by norm_num)
 
+/-! ## get_shape: argument handling -/
+
+/-- **Numbers are numbers.** Python ints (bools, numpy integers) and floats (numpy floating scalars)
+reach the same code path: on numeric arguments `get_shape(a, c)` is the `getShape` of their values
+(to which `domain_iff_323/423/523` apply). -/
+theorem getShapeArg_numeric (T : Table) (a c : Arg ℝ) (av cv : ℝ)
+    (ha : a.val? = some av) (hc : c.val? = some cv) : T.getShapeArg a c = T.getShape av cv := by
+  unfold Table.getShapeArg Table.getShape Table.domain
+  rw [ha, hc]
+  by_cases h1 : outside (T.aLo.toScalar T.den : ℝ) (T.aHi.toScalar T.den) av = true
+  · simp [h1]
+  · by_cases h2 : outside (T.cLo.toScalar T.den : ℝ) (T.cHi.toScalar T.den) cv = true
+    · simp [h1, h2]
+    · simp [h1, h2]
+
+/-- non-numbers raise TypeError at the first comparison that meets them: `a` first; `c` only if
+`a` passed its interval test (an out-of-range `a` raises ValueError whatever `c` is) -/
+theorem getShapeArg_errors (T : Table) (a c : Arg ℝ) :
+    (a.val? = none → T.getShapeArg a c = .error "TypeError") ∧
+    (∀ av, a.val? = some av → outside (T.aLo.toScalar T.den : ℝ) (T.aHi.toScalar T.den) av = true →
+      T.getShapeArg a c = .error "ValueError") ∧
+    (∀ av, a.val? = some av → outside (T.aLo.toScalar T.den : ℝ) (T.aHi.toScalar T.den) av = false →
+      c.val? = none → T.getShapeArg a c = .error "TypeError") := by
+  refine ⟨?_, ?_, ?_⟩
+  · intro h; unfold Table.getShapeArg; rw [h]
+  · intro av h ho; unfold Table.getShapeArg; rw [h]; simp [ho]
+  · intro av h ho hc; unfold Table.getShapeArg; rw [h, hc]; simp [ho]
+
+example : Gen.fam323.getShapeArg (.int 2 : Arg ℝ) (.real 2) = Gen.fam323.getShape 2 2 :=
+  getShapeArg_numeric _ _ _ _ _ (by simp [Arg.val?, ofInt_real]) rfl
+
+/-- **The `n` of the uniform families**: accepted iff it is an integer ≥ 3 (then `make_vertices(n)`
+runs); integers < 3 raise ValueError (ZeroDivisionError for 0 in the four polyhedral families),
+floats raise ValueError below 3 and TypeError otherwise, non-numbers TypeError. -/
+theorem uniformArg_ok_iff (kind : Nat) (n : Arg ℝ) (m : Nat) :
+    uniformArg kind n = .ok m ↔ ∃ i : Int, n = .int i ∧ 3 ≤ i ∧ m = i.toNat := by
+  cases n with
+  | other => simp [uniformArg]
+  | real x =>
+    simp only [uniformArg]
+    split_ifs <;> simp
+  | int i =>
+    simp only [uniformArg]
+    split_ifs with h1 h2
+    · simp only [reduceCtorEq, Arg.int.injEq, exists_eq_left', false_iff, not_and]
+      intro h3; omega
+    · simp only [reduceCtorEq, Arg.int.injEq, exists_eq_left', false_iff, not_and]
+      intro h3; omega
+    · simp only [Except.ok.injEq, Arg.int.injEq, exists_eq_left']
+      constructor
+      · intro h; exact ⟨by omega, h.symm⟩
+      · intro h; exact h.2.symm
+
+theorem uniformGetShape_int (kind : Nat) {n : Nat} (hn : 3 ≤ n) :
+    uniformGetShape kind (.int n : Arg ℝ) = uniformVertices kind n := by
+  have : uniformArg kind (.int n : Arg ℝ) = .ok n :=
+    (uniformArg_ok_iff kind _ n).mpr ⟨n, rfl, by omega, by simp⟩
+  unfold uniformGetShape; rw [this]
+
+example : uniformGetShape 2 (.int 7 : Arg ℝ) = antiprism 7 := by
+  simpa [uniformVertices] using uniformGetShape_int 2 (n := 7) (by norm_num)
+example : uniformGetShape 1 (.real 4 : Arg ℝ) = .error "TypeError" := by
+  simp [uniformGetShape, uniformArg, Scalar.lit, Scalar.eqb]; norm_num
+
 /-! ## the regenerated tables are the documented families; corner solids (kernel evaluation) -/
 
 /-- `_planes`/`_plane_types` of the three classes are, as sets of (plane, type), the documented
@@ -316,12 +389,95 @@ theorem tables_documented :
   ⟨FamTables.fam323_isDoc, FamTables.fam423_isDoc, FamTables.fam523_isDoc, FamTables.tt_isDoc,
    FamTables.doi_isDoc⟩
 
-/-- on the 323+ and 423 tables every plane triple has determinant 0 or of absolute value > 1e-6:
-the coded test `|det| > 1e-6` is the test `det ≠ 0` there.
-(`_partial`: not evaluated for the 37 820 triples of the 523 table — too slow for the kernel.) -/
-theorem det_gap_partial :
+/-- **Determinant gap, all three tables, all parameters.** For the model's real plane tables of
+323+, 423 and 523 EVERY triple of planes `make_vertices` looks at has determinant 0 or of absolute
+value > 1e-6: the coded test `np.abs(dets) > thresh` is the test `det ≠ 0`.  Proved from the field
+norm of ℤ[√5] (`Fam.det_gap_of_bounded`: a non-zero determinant times its conjugate is a non-zero
+integer, and the conjugate is at most 6K³ for entries of size ≤ K); the kernel only checks the entry
+bound `K` (1, 1, 6) on the regenerated tables — no enumeration of the 37 820 triples of 523. -/
+theorem det_gap (a b c : ℝ) (t : Row ℝ × Row ℝ × Row ℝ) :
+    ([t.1, t.2.1, t.2.2].Sublist (rows Gen.fam323.planesS Gen.fam323.types a b c) →
+      tripleDet t = 0 ∨ 1 / 1000000 < |tripleDet t|) ∧
+    ([t.1, t.2.1, t.2.2].Sublist (rows Gen.fam423.planesS Gen.fam423.types a b c) →
+      tripleDet t = 0 ∨ 1 / 1000000 < |tripleDet t|) ∧
+    ([t.1, t.2.1, t.2.2].Sublist (rows Gen.fam523.planesS Gen.fam523.types a b c) →
+      tripleDet t = 0 ∨ 1 / 1000000 < |tripleDet t|) :=
+  ⟨det_gap_rows Gen.fam323 1 (by decide) FamTables.fam323_within (by decide) a b c t,
+   det_gap_rows Gen.fam423 1 (by decide) FamTables.fam423_within (by decide) a b c t,
+   det_gap_rows Gen.fam523 6 (by decide) FamTables.fam523_within (by decide) a b c t⟩
+
+/-- the same fact evaluated triple by triple by the kernel on the two small tables (independent
+    confirmation of `det_gap` there) -/
+theorem det_gap_kernel :
     detGap Gen.fam323.planes Gen.fam323.den = true ∧ detGap Gen.fam423.planes Gen.fam423.den = true :=
   ⟨FamTables.fam323_detGap, FamTables.fam423_detGap⟩
+
+/-- **Exactness on the three tables needs only the half-space gap.** With `det_gap`, hypothesis (G1)
+of `make_vertices_exact_of_gap` is discharged for Family323Plus / 423 / 523 (and the truncated
+tetrahedron, which uses the 323+ table) at EVERY parameter triple: if no meeting point violates a
+half-space by an amount in (0, 1e-6], `make_vertices` returns exactly the vertices of the polytope
+(up to the 6-decimal grid). -/
+theorem make_vertices_exact_tables (T : Table) (hT : T = Gen.fam323 ∨ T = Gen.fam423 ∨ T = Gen.fam523)
+    (a b c : ℝ)
+    (G2 : ∀ t : Row ℝ × Row ℝ × Row ℝ, [t.1, t.2.1, t.2.2].Sublist (rows T.planesS T.types a b c) →
+      tripleDet t ≠ 0 →
+      (∀ r ∈ rows T.planesS T.types a b c, V3.dot r.1 (solve3 t) ≤ r.2) ∨
+      (∃ r ∈ rows T.planesS T.types a b c, r.2 + 1 / 1000000 < V3.dot r.1 (solve3 t))) :
+    (∀ p ∈ makeVertices T.planesS T.types a b c, IsVertexR (rows T.planesS T.types a b c) p) ∧
+    (∀ x, IsVertexR (rows T.planesS T.types a b c) x →
+      ∃ p ∈ makeVertices T.planesS T.types a b c, key p = key x ∧
+        |p.x - x.x| ≤ 1 / 1000000 ∧ |p.y - x.y| ≤ 1 / 1000000 ∧ |p.z - x.z| ≤ 1 / 1000000) := by
+  apply make_vertices_exact_of_gap _ _ _ _ _ _ G2
+  intro t ht
+  rcases hT with rfl | rfl | rfl
+  · exact (det_gap a b c t).1 ht
+  · exact (det_gap a b c t).2.1 ht
+  · exact (det_gap a b c t).2.2 ht
+
+/-- **Exactness certified per run (323+, 423, truncated tetrahedron).** The tables are integral and
+every double is a rational: if the check `halfspaceGap` — evaluated by the driver EXACTLY over ℚ on
+the `(a, b, c)` that `get_shape` handed to `make_vertices` — returns `true`, then for those parameters
+`make_vertices` returns only vertices of the exact polytope `{x | ∀ j, P_j·x ≤ d_j}` and every vertex
+of it up to the 6-decimal grid.  (G1 by `det_gap`, G2 by soundness of the check; the value of the
+check over ℚ is its value over ℝ: `halfspaceGap_cast`.) -/
+theorem make_vertices_exact_certified (T : Table) (hT : T = Gen.fam323 ∨ T = Gen.fam423) (a b c : ℚ)
+    (hchk : halfspaceGap (rows (T.planesS : List (V3 ℚ)) T.types a b c) = true) :
+    (∀ p ∈ makeVertices (T.planesS : List (V3 ℝ)) T.types (a : ℝ) (b : ℝ) (c : ℝ),
+      IsVertexR (rows T.planesS T.types (a : ℝ) (b : ℝ) (c : ℝ)) p) ∧
+    (∀ x, IsVertexR (rows (T.planesS : List (V3 ℝ)) T.types (a : ℝ) (b : ℝ) (c : ℝ)) x →
+      ∃ p ∈ makeVertices (T.planesS : List (V3 ℝ)) T.types (a : ℝ) (b : ℝ) (c : ℝ), key p = key x ∧
+        |p.x - x.x| ≤ 1 / 1000000 ∧ |p.y - x.y| ≤ 1 / 1000000 ∧ |p.z - x.z| ≤ 1 / 1000000) := by
+  have hrat : T.rational = true := by
+    rcases hT with rfl | rfl
+    · exact FamTables.fam323_rational
+    · exact FamTables.fam423_rational
+  apply make_vertices_exact_tables T (by rcases hT with h | h <;> simp [h])
+  intro t ht hd
+  have hR : rows (T.planesS : List (V3 ℝ)) T.types (a : ℝ) (b : ℝ) (c : ℝ)
+      = (rows (T.planesS : List (V3 ℚ)) T.types a b c).map castRow := by
+    rw [rows_cast, planesS_cast T hrat]
+  rw [hR] at ht ⊢
+  rw [halfspaceGap_cast] at hchk
+  exact halfspaceGap_sound _ hchk t ht hd
+
+/-- the certificate holds at the cube corner (3, 1, 3) of 323+ (kernel evaluation over ℚ in
+`Lemmas/FamiliesGapExample.lean`), hence
+every point `make_vertices(3, 1, 3)` returns is a vertex of the exact polytope -/
+example : ∀ p ∈ makeVertices (Gen.fam323.planesS : List (V3 ℝ)) Gen.fam323.types ((3 : ℚ) : ℝ) ((1 : ℚ) : ℝ) ((3 : ℚ) : ℝ),
+    IsVertexR (rows Gen.fam323.planesS Gen.fam323.types ((3 : ℚ) : ℝ) ((1 : ℚ) : ℝ) ((3 : ℚ) : ℝ)) p :=
+  (make_vertices_exact_certified Gen.fam323 (Or.inl rfl) 3 1 3 FamTables.fam323_cube_gapcheck).1
+
+/-- the hypothesis of `det_gap` is inhabited: the first three rows of the 323+ table -/
+example : ∃ t : Row ℝ × Row ℝ × Row ℝ,
+    [t.1, t.2.1, t.2.2].Sublist (rows Gen.fam323.planesS Gen.fam323.types 2 1 2) := by
+  have h : ∃ r0 r1 r2 rest, rows (Gen.fam323.planesS : List (V3 ℝ)) Gen.fam323.types 2 1 2
+      = r0 :: r1 :: r2 :: rest := by
+    simp only [rows, Table.planesS, Gen.fam323, List.map_cons, List.zipWith_cons_cons]
+    exact ⟨_, _, _, _, rfl⟩
+  obtain ⟨r0, r1, r2, rest, h⟩ := h
+  refine ⟨(r0, r1, r2), ?_⟩
+  rw [h]
+  exact List.Sublist.cons_cons _ (List.Sublist.cons_cons _ (List.Sublist.cons_cons _ (List.nil_sublist _)))
 
 /-- **Corner solids of Family323Plus** (exact, ℤ arithmetic, all 364 plane triples): at (1,1),
 (3,1), (1,3), (3,3) the polytope `{x | P_j·x ≤ D_j}` has EXACTLY the vertices of the octahedron
@@ -344,13 +500,25 @@ theorem corners_423 :
   ⟨FamTables.c423_cuboctahedron, FamTables.c423_octahedron, FamTables.c423_cube,
    FamTables.c423_rhombicDodecahedron⟩
 
-/-- **Corner solids of Family523, soundness half** (exact in ℤ[√5]): at (1,S²), (s√5,S²), (1,3),
-(s√5,3) every vertex of the textbook icosidodecahedron (y,z exchanged), icosahedron,
-dodecahedron, rhombic triacontahedron, scaled by 1/φ, satisfies all 62 half-spaces and is the
-meeting point of three independent planes; the lists have 30, 12, 20, 32 distinct points.
-`_partial`: that the polytope has NO FURTHER vertex (37 820 triples × 62 planes in ℤ[√5]) is not
-evaluated in the kernel; it is checked in floating point (1e-9) by the harness oracle. -/
-theorem corners_523_partial :
+/-- **Corner solids of Family523** (exact in ℤ[√5]): at (1,S²), (s√5,S²), (1,3), (s√5,3) the polytope
+of the 62 half-spaces has EXACTLY the vertices of the textbook icosidodecahedron (y,z exchanged),
+icosahedron, dodecahedron and rhombic triacontahedron scaled by 1/φ (30, 12, 20, 32 points).
+Soundness half (`cornerHas`): every textbook vertex satisfies all half-spaces and has three
+independent tight planes.  Completeness (`cornerIsCert`): the kernel checks one certificate per pair
+of planes (1 891 pairs per corner, regenerated by the translator from the table of /repo; the
+certificates are untrusted, `Fam.isVertexSetCert_sound` proves the checker sound), instead of scanning
+37 820 triples × 62 planes. -/
+theorem corners_523 :
+    Gen.fam523.cornerIsCert ⟨2, 0⟩ ⟨3, 1⟩ (icosidodecahedronT.swapYZ.scale ⟨-1, 1⟩ 2) Gen.cert523_0 = true ∧
+    Gen.fam523.cornerIsCert ⟨5, -1⟩ ⟨3, 1⟩ (icosahedronT.scale ⟨-1, 1⟩ 2) Gen.cert523_1 = true ∧
+    Gen.fam523.cornerIsCert ⟨2, 0⟩ ⟨6, 0⟩ (dodecahedronT.scale ⟨-1, 1⟩ 2) Gen.cert523_2 = true ∧
+    Gen.fam523.cornerIsCert ⟨5, -1⟩ ⟨6, 0⟩ (rhombicTriacontahedronT.scale ⟨-1, 1⟩ 2) Gen.cert523_3 = true :=
+  ⟨FamTables.c523_icosidodecahedron_exact, FamTables.c523_icosahedron_exact,
+   FamTables.c523_dodecahedron_exact, FamTables.c523_rhombicTriacontahedron_exact⟩
+
+/-- the textbook lists have 30, 12, 20, 32 points and (independent evaluation without certificates)
+every one of them is a vertex of the 523 polytope at its corner -/
+theorem corners_523_counts :
     (Gen.fam523.cornerHas ⟨2, 0⟩ ⟨3, 1⟩ (icosidodecahedronT.swapYZ.scale ⟨-1, 1⟩ 2) &&
       icosidodecahedronT.V.length == 30) = true ∧
     (Gen.fam523.cornerHas ⟨5, -1⟩ ⟨3, 1⟩ (icosahedronT.scale ⟨-1, 1⟩ 2) &&
@@ -416,22 +584,21 @@ theorem corners_423_real (x : V3 ℝ) :
   simp only [e, eb, Int.cast_one, Int.cast_ofNat] at h1 h2 h3 h4
   exact ⟨h1, h2, h3, h4⟩
 
-/-- **Family523, real form, soundness half**: with `b = 2`, at (1,S²), (s√5,S²), (1,3), (s√5,3)
-every point of the scaled textbook solid is a vertex of the real polytope.
-`_partial`: no statement that there are no further vertices (see `corners_523_partial`). -/
-theorem corners_523_real_partial :
-    (∀ v ∈ (icosidodecahedronT.swapYZ.scale ⟨-1, 1⟩ 2).V,
-      IsVertexR (rows Gen.fam523.planesS Gen.fam523.types 1 2 (goldS * goldS))
-        (V3.sdiv (ZV.toReal v) ((icosidodecahedronT.swapYZ.scale ⟨-1, 1⟩ 2).td : ℝ))) ∧
-    (∀ v ∈ (icosahedronT.scale ⟨-1, 1⟩ 2).V,
-      IsVertexR (rows Gen.fam523.planesS Gen.fam523.types (golds * Real.sqrt 5) 2 (goldS * goldS))
-        (V3.sdiv (ZV.toReal v) ((icosahedronT.scale ⟨-1, 1⟩ 2).td : ℝ))) ∧
-    (∀ v ∈ (dodecahedronT.scale ⟨-1, 1⟩ 2).V,
-      IsVertexR (rows Gen.fam523.planesS Gen.fam523.types 1 2 3)
-        (V3.sdiv (ZV.toReal v) ((dodecahedronT.scale ⟨-1, 1⟩ 2).td : ℝ))) ∧
-    (∀ v ∈ (rhombicTriacontahedronT.scale ⟨-1, 1⟩ 2).V,
-      IsVertexR (rows Gen.fam523.planesS Gen.fam523.types (golds * Real.sqrt 5) 2 3)
-        (V3.sdiv (ZV.toReal v) ((rhombicTriacontahedronT.scale ⟨-1, 1⟩ 2).td : ℝ))) := by
+/-- **Family523, real form**: with `b = 2`, at (1,S²), (s√5,S²), (1,3), (s√5,3) the vertices of the
+real polytope `{x | ∀ j, P_j·x ≤ dist_j}` of the model's plane table are exactly the points of the
+scaled textbook icosidodecahedron (y,z exchanged), icosahedron, dodecahedron, rhombic
+triacontahedron. -/
+theorem corners_523_real (x : V3 ℝ) :
+    (IsVertexR (rows Gen.fam523.planesS Gen.fam523.types 1 2 (goldS * goldS)) x ↔
+      ∃ v ∈ (icosidodecahedronT.swapYZ.scale ⟨-1, 1⟩ 2).V,
+        x = V3.sdiv (ZV.toReal v) ((icosidodecahedronT.swapYZ.scale ⟨-1, 1⟩ 2).td : ℝ)) ∧
+    (IsVertexR (rows Gen.fam523.planesS Gen.fam523.types (golds * Real.sqrt 5) 2 (goldS * goldS)) x ↔
+      ∃ v ∈ (icosahedronT.scale ⟨-1, 1⟩ 2).V, x = V3.sdiv (ZV.toReal v) ((icosahedronT.scale ⟨-1, 1⟩ 2).td : ℝ)) ∧
+    (IsVertexR (rows Gen.fam523.planesS Gen.fam523.types 1 2 3) x ↔
+      ∃ v ∈ (dodecahedronT.scale ⟨-1, 1⟩ 2).V, x = V3.sdiv (ZV.toReal v) ((dodecahedronT.scale ⟨-1, 1⟩ 2).td : ℝ)) ∧
+    (IsVertexR (rows Gen.fam523.planesS Gen.fam523.types (golds * Real.sqrt 5) 2 3) x ↔
+      ∃ v ∈ (rhombicTriacontahedronT.scale ⟨-1, 1⟩ 2).V,
+        x = V3.sdiv (ZV.toReal v) ((rhombicTriacontahedronT.scale ⟨-1, 1⟩ 2).td : ℝ)) := by
   have hden : 0 < Gen.fam523.den := by decide
   have e1 : ((⟨2, 0⟩ : Z5).toScalar Gen.fam523.den : ℝ) = 1 := by
     rw [toScalar_real]; simp [Gen.fam523]
@@ -443,20 +610,19 @@ theorem corners_523_real_partial :
     rw [toScalar_real]; simp [Gen.fam523]; norm_num
   have eb : (Gen.fam523.b.toScalar Gen.fam523.den : ℝ) = 2 := by
     rw [toScalar_real]; simp [Gen.fam523]; norm_num
-  have c1 := FamTables.c523_icosidodecahedron
-  have c2 := FamTables.c523_icosahedron
-  have c3 := FamTables.c523_dodecahedron
-  have c4 := FamTables.c523_rhombicTriacontahedron
-  rw [Bool.and_eq_true] at c1 c2 c3 c4
-  refine ⟨fun v hv => ?_, fun v hv => ?_, fun v hv => ?_, fun v hv => ?_⟩
-  · have := cornerHas_sound Gen.fam523 ⟨2, 0⟩ ⟨3, 1⟩ _ hden c1.1 v hv
-    rwa [e1, e3, eb] at this
-  · have := cornerHas_sound Gen.fam523 ⟨5, -1⟩ ⟨3, 1⟩ _ hden c2.1 v hv
-    rwa [e2, e3, eb] at this
-  · have := cornerHas_sound Gen.fam523 ⟨2, 0⟩ ⟨6, 0⟩ _ hden c3.1 v hv
-    rwa [e1, e4, eb] at this
-  · have := cornerHas_sound Gen.fam523 ⟨5, -1⟩ ⟨6, 0⟩ _ hden c4.1 v hv
-    rwa [e2, e4, eb] at this
+  have h1 := cornerIsCert_sound Gen.fam523 ⟨2, 0⟩ ⟨3, 1⟩ _ _ hden FamTables.c523_icosidodecahedron_exact x
+  have h2 := cornerIsCert_sound Gen.fam523 ⟨5, -1⟩ ⟨3, 1⟩ _ _ hden FamTables.c523_icosahedron_exact x
+  have h3 := cornerIsCert_sound Gen.fam523 ⟨2, 0⟩ ⟨6, 0⟩ _ _ hden FamTables.c523_dodecahedron_exact x
+  have h4 := cornerIsCert_sound Gen.fam523 ⟨5, -1⟩ ⟨6, 0⟩ _ _ hden FamTables.c523_rhombicTriacontahedron_exact x
+  rw [e1, e3, eb] at h1
+  rw [e2, e3, eb] at h2
+  rw [e1, e4, eb] at h3
+  rw [e2, e4, eb] at h4
+  exact ⟨h1, h2, h3, h4⟩
+
+/-- the vertex (1,1,1)/φ·… of the dodecahedron corner: `corners_523_real` is not vacuous -/
+example : ∃ x : V3 ℝ, IsVertexR (rows Gen.fam523.planesS Gen.fam523.types 1 2 3) x :=
+  ⟨_, ((corners_523_real _).2.2.1).mpr ⟨ZV.smul ⟨-1, 1⟩ (zi 2 2 2), by decide, rfl⟩⟩
 
 /-! ## DOI lookup -/
 
@@ -556,9 +722,8 @@ example : 0 < (prismH 4 : ℝ) := (prism_spec (n := 4) (by norm_num)).2.2.1
 /-- **Antiprism**: 2n vertices (bottom n-gon turned by π/n at z = −h/2, top at z = h/2), all edges
 equal to `s = antiprismS n`: ring edges of both n-gons and the 2n lateral edges
 top_k–bottom_k, bottom_k–top_{k+1}.
-`_partial`: unit volume is not proved (no closed-form spec of the antiprism volume independent of
-the coded formula); the harness oracle checks it numerically for n = 3..200. -/
-theorem antiprism_spec_partial {n : Nat} (hn : 3 ≤ n) :
+Unit volume and the centroid are in `antiprism_volume_centroid`. -/
+theorem antiprism_spec {n : Nat} (hn : 3 ≤ n) :
     let h : ℝ := antiprismH n
     let A : ℝ := antiprismArea n
     let s : ℝ := antiprismS n
@@ -617,7 +782,7 @@ theorem antiprism_spec_partial {n : Nat} (hn : 3 ≤ n) :
 
 example : ((List.range 3).map (ngonVertex 3 (-(antiprismH 3 : ℝ) / 2) (antiprismArea 3) (Real.pi / (3:ℕ)))
     ++ (List.range 3).map (ngonVertex 3 ((antiprismH 3 : ℝ) / 2) (antiprismArea 3) 0)).length = 2 * 3 :=
-  (antiprism_spec_partial (n := 3) (by norm_num)).2.1
+  (antiprism_spec (n := 3) (by norm_num)).2.1
 
 /-- **Pyramid** (n = 3, 4, 5): n+1 vertices, base at z = −h/4 and apex at z = 3h/4 (so the centroid,
 a quarter of the height above the base, is at the origin), unit volume (base area × height / 3),
@@ -690,5 +855,62 @@ theorem dipyramid_spec {n : Nat} (hn : 3 ≤ n) (hn5 : n ≤ 5) :
     constructor <;> (ring_nf; rw [e1]; ring)
 
 example : 0 < (dipyramidH 3 : ℝ) := (dipyramid_spec (n := 3) (by norm_num) (by norm_num)).2.2.1
+
+/-! ## unit volume and centroid of the uniform solids
+
+  The solid is the union of the cones from the origin over the boundary triangles of the returned
+  vertex array (`Fam.prismSurface` … in Spec/Families.lean: rings closed cyclically, n-gon faces
+  fanned from the axis); `Spec.vol` / `Spec.centroid` are the tetrahedron sums of Spec/Solid.lean
+  (the specification of C01/C02).  Proved for EVERY admissible n: the sector between two
+  consecutive ring vertices is rotated n times (`Fam.swept_spec`, using Σ cos(2πk/n) = Σ sin(2πk/n) = 0),
+  the sector volume is a polynomial identity, and the coded closed forms of height / edge / base area
+  make n sector volumes equal to 1. -/
+
+theorem centroid_of_first_vol (Ts : List (Tet ℝ)) (hv : Spec.vol Ts = 1) (hf : Spec.first Ts = ⟨0, 0, 0⟩) :
+    Spec.centroid Ts = ⟨0, 0, 0⟩ := by
+  unfold Spec.centroid
+  rw [hv, hf]
+  apply V3.ext' <;> simp
+
+/-- **Prism: unit volume, centroid at the origin**, every n ≥ 3. -/
+theorem prism_volume_centroid {n : Nat} (hn : 3 ≤ n) :
+    ∃ vs, (prism n : Except String (List (V3 ℝ))) = .ok vs ∧ vs.length = 2 * n ∧
+      solidVolume (prismSurface n vs) = 1 ∧ Spec.centroid (conesOver (prismSurface n vs)) = ⟨0, 0, 0⟩ := by
+  obtain ⟨h1, h2, -⟩ := prism_spec hn
+  obtain ⟨hv, hf⟩ := prism_solid hn
+  exact ⟨_, h1, h2, hv, centroid_of_first_vol _ hv hf⟩
+
+/-- **Antiprism: unit volume, centroid at the origin**, every n ≥ 3 (the former `_partial` gap):
+`n·(2/3)(h/2)r²(sin 2π/n + sin π/n) = 1` follows from the coded `s`, `h = √(1 − sec²(π/2n)/4)·s`,
+`A = (n/4)cot(π/n)s²` and `cot(π/2n) + cot(π/n) = (2cos(π/n) + 1)/sin(π/n)`. -/
+theorem antiprism_volume_centroid {n : Nat} (hn : 3 ≤ n) :
+    ∃ vs, (antiprism n : Except String (List (V3 ℝ))) = .ok vs ∧ vs.length = 2 * n ∧
+      solidVolume (antiprismSurface n vs) = 1 ∧
+      Spec.centroid (conesOver (antiprismSurface n vs)) = ⟨0, 0, 0⟩ := by
+  obtain ⟨h1, h2, -⟩ := antiprism_spec hn
+  obtain ⟨hv, hf⟩ := antiprism_solid hn
+  exact ⟨_, h1, h2, hv, centroid_of_first_vol _ hv hf⟩
+
+/-- **Pyramid (n = 3, 4, 5): unit volume, centroid at the origin** (as a solid, not only by the
+quarter-height rule of `pyramid_spec`). -/
+theorem pyramid_volume_centroid {n : Nat} (hn : 3 ≤ n) (hn5 : n ≤ 5) :
+    ∃ vs, (pyramid n : Except String (List (V3 ℝ))) = .ok vs ∧ vs.length = n + 1 ∧
+      solidVolume (pyramidSurface n vs) = 1 ∧ Spec.centroid (conesOver (pyramidSurface n vs)) = ⟨0, 0, 0⟩ := by
+  obtain ⟨h1, h2, -⟩ := pyramid_spec hn hn5
+  obtain ⟨hv, hf⟩ := pyramid_solid hn hn5
+  exact ⟨_, h1, h2, hv, centroid_of_first_vol _ hv hf⟩
+
+/-- **Dipyramid (n = 3, 4, 5): unit volume, centroid at the origin.** -/
+theorem dipyramid_volume_centroid {n : Nat} (hn : 3 ≤ n) (hn5 : n ≤ 5) :
+    ∃ vs, (dipyramid n : Except String (List (V3 ℝ))) = .ok vs ∧ vs.length = n + 2 ∧
+      solidVolume (dipyramidSurface n vs) = 1 ∧
+      Spec.centroid (conesOver (dipyramidSurface n vs)) = ⟨0, 0, 0⟩ := by
+  obtain ⟨h1, h2, -⟩ := dipyramid_spec hn hn5
+  obtain ⟨hv, hf⟩ := dipyramid_solid hn hn5
+  exact ⟨_, h1, h2, hv, centroid_of_first_vol _ hv hf⟩
+
+example : ∃ vs, (antiprism 7 : Except String (List (V3 ℝ))) = .ok vs ∧ vs.length = 2 * 7 ∧
+    solidVolume (antiprismSurface 7 vs) = 1 ∧ Spec.centroid (conesOver (antiprismSurface 7 vs)) = ⟨0, 0, 0⟩ :=
+  antiprism_volume_centroid (by norm_num)
 
 end
